@@ -16,43 +16,6 @@ structure InSpace (net : Net) : Prop where
   succs : ∀ n nd, net.get n = some nd → ∀ s ∈ nd.succs, s < M
   fingers : ∀ n nd, net.get n = some nd → ∀ f, some f ∈ nd.fingers → f < M
 
-theorem closestPreceding_cases (self key : Nat) (fs : List (Option Nat)) :
-    closestPreceding self key fs = self ∨
-    (some (closestPreceding self key fs) ∈ fs ∧ between self (closestPreceding self key fs) key false = true) := by
-  unfold closestPreceding
-  cases h : (fs.reverse.filterMap id).find? (fun f => between self f key false) with
-  | none => left; rfl
-  | some f =>
-    right
-    have hm := List.mem_of_find?_eq_some h
-    have hp := List.find?_some h
-    simp only [List.mem_filterMap, List.mem_reverse, id] at hm
-    obtain ⟨a, ha, rfl⟩ := hm
-    exact ⟨ha, by simpa using hp⟩
-
-theorem checkNodeState_ne_fuel (nd : Node) (b : Bool) : checkNodeState nd b ≠ some .fuel := by
-  unfold checkNodeState
-  cases nd.crashed <;> cases nd.state <;> cases b <;> simp
-
-theorem findSucc_succ (net : Net) (fuel n key : Nat) :
-    findSucc net (fuel+1) n key =
-    match net.get n with
-    | none => .err .unreachable
-    | some nd =>
-      match checkNodeState nd false with
-      | some e => .err e
-      | none =>
-        if (match nd.pred with | some p => between p key n true | none => false) then .found n
-        else match nd.succs.head? with
-          | none => .err .noSuccessor
-          | some s =>
-            if between n key s true then .found s
-            else
-              let c := closestPreceding n key nd.fingers
-              let c := if c == n then s else c
-              findSucc net fuel c key := by
-  rfl
-
 /-- Every forwarding hop strictly decreases `cw key ·`; by strong induction some fuel suffices. -/
 theorem lookup_terminates_aux (net : Net) (hw : InSpace net) :
     ∀ (d n key : Nat), cw key n = d → n < M → key < M →
@@ -61,40 +24,20 @@ theorem lookup_terminates_aux (net : Net) (hw : InSpace net) :
   induction d using Nat.strongRecOn with
   | ind d ih =>
     intro n key hd hn hk
-    cases hg : net.get n with
-    | none => exact ⟨1, by rw [findSucc_succ]; simp [hg]⟩
-    | some nd =>
-      cases hc : checkNodeState nd false with
-      | some e =>
-        refine ⟨1, ?_⟩
-        rw [findSucc_succ]; simp only [hg, hc]
-        intro h; injection h with h; exact checkNodeState_ne_fuel nd false (h ▸ hc)
-      | none =>
-        by_cases c1 : (match nd.pred with | some p => between p key n true | none => false) = true
-        · exact ⟨1, by rw [findSucc_succ]; simp only [hg, hc, c1]; simp⟩
-        · cases hs : nd.succs.head? with
-          | none => exact ⟨1, by rw [findSucc_succ]; simp only [hg, hc, c1, hs]; simp⟩
-          | some s =>
-            have hsM : s < M := hw.succs n nd hg s (List.mem_of_mem_head? hs)
-            by_cases c2 : between n key s true = true
-            · exact ⟨1, by rw [findSucc_succ]; simp only [hg, hc, c1, hs, c2]; simp⟩
-            · -- forwarding hop
-              have hcM_lt : ∀ c, c = (if (closestPreceding n key nd.fingers == n) = true then s
-                    else closestPreceding n key nd.fingers) → c < M ∧ cw key c < cw key n := by
-                intro c hcdef
-                by_cases e : (closestPreceding n key nd.fingers == n) = true
-                · rw [if_pos e] at hcdef; subst hcdef
-                  exact ⟨hsM, cw_lt_of_not_between_closed n c key hn hsM hk c2⟩
-                · rw [if_neg e] at hcdef; subst hcdef
-                  rcases closestPreceding_cases n key nd.fingers with h | ⟨hm, hb⟩
-                  · exfalso; apply e; simp [h]
-                  · have hfM := hw.fingers n nd hg _ hm
-                    exact ⟨hfM, cw_lt_of_between_open n _ key hn hfM hk hb⟩
-              obtain ⟨hcM, hlt⟩ := hcM_lt _ rfl
-              obtain ⟨fuel, hf⟩ := ih _ (by rw [← hd]; exact hlt) _ key rfl hcM hk
-              refine ⟨fuel + 1, ?_⟩
-              rw [findSucc_succ]; simp only [hg, hc, c1, hs, c2]
-              exact hf
+    match stepCase net n key with
+    | .none hg => exact ⟨1, by rw [findSucc_none net 0 n key hg]; simp⟩
+    | .dead nd e hg hc =>
+      refine ⟨1, ?_⟩
+      rw [findSucc_dead net 0 n key nd e hg hc]
+      intro h; injection h with h; exact checkNodeState_ne_fuel nd false (h ▸ hc)
+    | .pred nd hg hc h => exact ⟨1, by rw [findSucc_pred net 0 n key nd hg hc h]; simp⟩
+    | .nosucc nd hg hc h hs => exact ⟨1, by rw [findSucc_nosucc net 0 n key nd hg hc h hs]; simp⟩
+    | .succ nd s hg hc h hs hb => exact ⟨1, by rw [findSucc_succ_found net 0 n key s nd hg hc h hs hb]; simp⟩
+    | .hop nd s hg hc h hs hb =>
+      have hsM : s < M := hw.succs n nd hg s (List.mem_of_mem_head? hs)
+      obtain ⟨hcM, hlt⟩ := hop_decreases n key s nd.fingers hn hk hsM (hw.fingers n nd hg) hb
+      obtain ⟨fuel, hf⟩ := ih _ (by rw [← hd]; exact hlt) _ key rfl hcM hk
+      exact ⟨fuel + 1, by rw [findSucc_hop net fuel n key s nd hg hc h hs hb]; exact hf⟩
 
 /-- **C09.** In every pointer state (identifiers in the ring), a lookup issued to any node `n` for
 any key ends with a node or an error — it never diverges. -/
@@ -110,26 +53,15 @@ theorem findSucc_fuel_mono (net : Net) : ∀ (fuel n key : Nat) (r : Res),
   | zero => intro n key r h hr; simp [findSucc] at h; exact absurd h.symm hr
   | succ f ih =>
     intro n key r h hr
-    rw [findSucc_succ] at h ⊢
-    cases hg : net.get n with
-    | none => simpa [hg] using h
-    | some nd =>
-      simp only [hg] at h ⊢
-      cases hc : checkNodeState nd false with
-      | some e => simpa [hc] using h
-      | none =>
-        simp only [hc] at h ⊢
-        by_cases c1 : (match nd.pred with | some p => between p key n true | none => false) = true
-        · simpa [c1] using h
-        · simp only [c1] at h ⊢
-          cases hs : nd.succs.head? with
-          | none => simpa [hs] using h
-          | some s =>
-            simp only [hs] at h ⊢
-            by_cases c2 : between n key s true = true
-            · simpa [c2] using h
-            · simp only [c2] at h ⊢
-              exact ih _ _ r h hr
+    match stepCase net n key with
+    | .none hg => rw [findSucc_none net _ n key hg] at h ⊢; exact h
+    | .dead nd e hg hc => rw [findSucc_dead net _ n key nd e hg hc] at h ⊢; exact h
+    | .pred nd hg hc hp => rw [findSucc_pred net _ n key nd hg hc hp] at h ⊢; exact h
+    | .nosucc nd hg hc hp hs => rw [findSucc_nosucc net _ n key nd hg hc hp hs] at h ⊢; exact h
+    | .succ nd s hg hc hp hs hb => rw [findSucc_succ_found net _ n key s nd hg hc hp hs hb] at h ⊢; exact h
+    | .hop nd s hg hc hp hs hb =>
+      rw [findSucc_hop net _ n key s nd hg hc hp hs hb] at h ⊢
+      exact ih _ _ r h hr
 
 /-- The joining-node state that made the pre-repair code diverge: node 150 knows pred 100 and succ 200,
 its finger table is still empty, key 300 is outside (100,150] and (150,200]. The repaired code
@@ -152,7 +84,7 @@ def findSuccOld (net : Net) : Nat → Nat → Nat → Res
       match checkNodeState nd false with
       | some e => .err e
       | none =>
-        if (match nd.pred with | some p => between p key n true | none => false) then .found n
+        if inPredRange nd.pred key n then .found n
         else match nd.succs.head? with
           | none => .err .noSuccessor
           | some s =>
